@@ -29,6 +29,7 @@ GEN = os.path.join(VERIF, "lean", "Vorbis", "Generated")
 FUNCS = [
     ("lib/sharedbook.c", "ov_ilog", "ov_ilog"),
     ("lib/sharedbook.c", "_book_maptype1_quantvals", "book_maptype1_quantvals"),
+    ("lib/res0.c", "icount", "icount"),
     ("lib/floor1.c", "render_point", "render_point"),
     ("lib/floor1.c", "render_line", "render_line"),
 ]
